@@ -97,7 +97,17 @@ impl Rng {
 
 /// Deterministic payload bytes for write operations: byte `i` of payload `seed`.
 /// Cheap, and every (seed, i) pair is attributable.
+/// payload seeds from here on mean "a one and then zeros": whole aligned blocks of zeros inside a write
+pub const ZERO_PAYLOAD: u32 = 0xFFF0_0000;
+
 pub fn payload(seed: u32, len: usize) -> Vec<u8> {
+    if seed >= ZERO_PAYLOAD {
+        let mut out = vec![0u8; len];
+        if let Some(b) = out.first_mut() {
+            *b = 1;
+        }
+        return out;
+    }
     let mut out = Vec::with_capacity(len);
     let mut x = (seed as u64) << 32 | 0x1234_5678;
     let mut i = 0;
